@@ -20,8 +20,11 @@ Lemma gen_supported_is_translated : forall dt a,
 Proof. intros; split; reflexivity. Qed.
 Lemma gen_zone_masks : sig_candidate_zone_mask = 256 /\ ds_candidate_zone_mask = sig_candidate_zone_mask.
 Proof. vm_compute. split; reflexivity. Qed.
-Lemma gen_supported_ds_src : map strip_ws supported_ds_src = [src "IsSupportedDSDigest(ds.DigestType) && IsSupportedDNSKEYAlgorithm(ds.Algorithm)"].
-Proof. vm_compute. reflexivity. Qed.
+(* IsSupportedDS(ds *dns.DS) — translated with miekg's dns.DS as a Record (on a non-nil pointer): the conjunction the model
+   uses in verify_one_ds / has_supported_ds / ds_binds_b *)
+Lemma gen_IsSupportedDS : forall ds : Sdns.Gen.C01.T_DS,
+  go_IsSupportedDS ds = supported_digest (T_DS_DigestType ds) && supported_alg (T_DS_Algorithm ds).
+Proof. intros. reflexivity. Qed.
 Lemma gen_root_ds_digest : root_ds_digest = 2.
 Proof. vm_compute. reflexivity. Qed.
 
